@@ -92,10 +92,17 @@ QJsonObject generate()
     so.maxLen = 10;
     so.allowZwsp = !excluded("zwsp");
     QString text = genString(so, &used);
+    // place-holder syntax of OTHER formatting facilities inside a value (QString::arg's %1..%99 / %L1, printf's %s %d): a value is
+    // data, whatever the formatter uses internally to assemble its output
+    auto sprinkle = [&](QString &v) {
+        static const char *alien[] = { "%1", "%2", "%3", "%L1", "%s", "%d", "%99", "%0" };
+        if (chance(12)) { v.insert(pick(0, v.size()), QLatin1String(alien[pick(0, 7)])); used |= 1u << SC_PATSYNTAX; }
+    };
+    sprinkle(text);
     c["text"] = strToJson(text);
     c["type"] = pick(0, 4);
-    static const char *cats[] = { "default", "app.net", "c", "", "qt.core", "a%b{c}" };
-    c["cat"] = cats[pick(0, 5)];
+    static const char *cats[] = { "default", "app.net", "c", "", "qt.core", "a%b{c}", "net%1" };
+    c["cat"] = cats[pick(0, 6)];
     static const char *files[] = { "/home/u/src/m.cpp", "m.cpp", "C:\\x\\y.cpp", "/home/u", "", "/home/ux/a.cpp", "../a b/c.cpp", "/home/u/" };
     c["file"] = files[pick(0, 7)];
     static const char *funcs[] = { "void f()", "int N::C::m(const QString&) const", "main", "", "auto x::operator()(int)::<lambda()>" };
@@ -106,7 +113,7 @@ QJsonObject generate()
         if (!chance(50)) continue;
         int k = pick(0, 2);
         StrOpts vo; vo.maxLen = 6; vo.allowZwsp = so.allowZwsp;
-        if (k == 0) attrs.append(QJsonArray { n, "s", strToJson(genString(vo, &used)) });
+        if (k == 0) { QString v = genString(vo, &used); sprinkle(v); attrs.append(QJsonArray { n, "s", strToJson(v) }); }
         else if (k == 1) attrs.append(QJsonArray { n, "i", chance(50) ? pick(-5, 100) : pick(0, 1000000) });
         else attrs.append(QJsonArray { n, "b", bool(pick(0, 1)) });
     }
